@@ -15,6 +15,11 @@ CHECKS = {
          "Every composition of an n-byte content (n <= 5 quick / 6 thorough, incl. zero-length writes, a NUL byte) into Write calls x chunk-size hints {-1,0,1,2,3,5,9} x EVERY subset of write boundaries closed-and-resumed x resume modes {explicit Size(), -1, alternating} x one bad resume (offset +1, -1, 0) tried first at each boundary (must be refused with RANGE_INVALID/416, a second attempt on the same writer too, and the upload must be unaltered) x right / wrong commit digest, on ocimem, client->server->ocimem with registry minimum chunk 1,2,3 (tiny-data flush logic) and the real 8192, two proxy hops, ociunify and ociunify over HTTP; plus write sizes {0,1,8191,8192,8193,16384} around the real minimum. Oracle: every accepted Write returns (len,nil), Size() equals bytes accepted, GetBlob after Commit returns exactly the concatenation, wrong digest stores nothing under either digest.",
          "Contents <= 6 bytes (plus the 8 KiB family). Excluded as stated: resume with -1 after exactly one byte. In-process transport bound to net/http by C03's loopback run.",
          "DESIGN.md 3 C04"),
+ "C05": ("model_checking", "E2-state",
+         "exhaustive enumeration of listing configurations executed on the real stacks with a sorted-strictly-after model and a counting consumer",
+         "Item sets of size 0..5 (quick) / 0..7 (thorough) around every multiple of the page sizes, items with URL metacharacters, prefix siblings (p, p-x/a, p.d/x, p/a, pp/x) x client page size {1,2,3,1000} x server MaxListPageSize {none,2} x Link header on/off x stacks {recording backend direct, real ocimem direct and over HTTP, 1 hop, 2 hops, ocidebug on both sides, Select on either side of the hop, Sub on either side, ociunify over disjoint/overlapping/equal members direct and over HTTP} x start points (absent, every element, between, beyond, URL metacharacters) x consumer declining after k x backend failing after j, for repositories, tags and referrers. Oracle: delivered items are exactly the model sequence (sorted, strictly after the start, filtered/stripped per wrapper, duplicate-free union), or a prefix followed by an error where an error can legitimately arise; never silently short; zero consumer calls after it declined or after an error; paging terminates within a request budget.",
+         "Bounded item universes; recording backends honour the Lister contract. In-process transport bound to net/http by C03's loopback run.",
+         "DESIGN.md 3 C05"),
  "C08": ("model_checking", "E1-sched",
          "stateless schedule exploration of the real ocimem (and ociclient->ociserver->ocimem) under a cooperative scheduler, twice: linearizability oracle, and -race build with a futex parker invisible to the race detector",
          "12 directed harnesses (tag retarget vs GetTag, commit vs write, two resumers, delete vs mount vs read, tagged push vs delete of a referenced blob and two pushers on one tag in immutable-tags mode, listing vs push/delete, concurrent first reads of a chunk-committed blob, cancel vs commit vs read; three of them also through ociclient->in-process transport->ociserver) explored over ALL schedules, plus 169 generated 2-thread programs (thorough: + 3x1 and 2+1 programs, ~5k) with <= 2 preemptions. Every complete schedule: brute-force linearizability of the recorded invocation/response history against the C02 reference model including the final read sweep. The same harness bodies are re-explored in a -race build where threads hand off through raw futex calls on plain words in //go:norace code, so the detector sees exactly the program's own synchronisation on EVERY explored schedule (not on whatever a stress run happens to hit); a detected race is reported with the two access sites.",
